@@ -986,6 +986,7 @@ func run(ctx context.Context, c tcase) string {
 
 	// the same case through Cluster.AddFile / the HTTP handler must show the same behaviour
 	reqTok := "na"
+	twinLine := ""
 	if c.route != "direct" {
 		twin := runAdd(ctx, c, c.route, top, carData, c.allocs, c.afail, c.pfail, c.faults)
 		if twin.st.infra != "" {
@@ -994,13 +995,35 @@ func run(ctx context.Context, c tcase) string {
 		same := twin.res == main.res && (twin.res != "ok" || twin.root.Equals(main.root)) &&
 			nm.routeSig(twin.st) == nm.routeSig(main.st)
 		reqTok = b01(same)
+		// what that entry point delivered and pinned is held to the property in its own right
+		// (a second case line; the block stream is the one recorded on the direct route)
+		tres := twin.res
+		tfin := "-"
+		tsucc := twin.res == "ok"
+		var tcl, trb, tri bool
+		if tsucc {
+			tres = "ok:" + strconv.Itoa(nm.data(twin.root))
+			tfin = strconv.Itoa(nm.data(twin.root))
+			del := &mapDAG{m: twin.st.stored, verify: true}
+			tcl, _ = closure(ctx, del, twin.root)
+			if refErr == nil {
+				trb = readback(ctx, del, twin.root, what)
+				tri = twin.root.Equals(refRoot)
+			}
+		}
+		tlog := nm.logTok(twin.st.events, false)
+		twinLine = fmt.Sprintf("\nres=%s stream=%s failed=- lost=- fin=%s log=%s nodes=%s cl=%s rb=%s rp=na ri=%s referr=%s req=na twin=1",
+			tres, streamTok, tfin, tlog, nm.nodesTok(twin.st), tri3(tsucc, tcl), tri3(tsucc && refErr == nil, trb),
+			tri3(tsucc && refErr == nil, tri), b01(importerFails))
 	}
 
 	return fmt.Sprintf("res=%s stream=%s failed=%s lost=%s fin=%s log=%s nodes=%s cl=%s rb=%s rp=%s ri=%s referr=%s req=%s",
 		resTok, streamTok, common.Ints(rec.failed), lostTok(ctx, rec, refDS), finTok, logTok, nodesTok,
 		tri(success, clOK), tri(success && refErr == nil, rbOK), tri(success && rpKnown, rpOK), tri(success && refErr == nil, riOK),
-		b01(importerFails), reqTok)
+		b01(importerFails), reqTok) + twinLine
 }
+
+func tri3(known bool, v bool) string { return tri(known, v) }
 
 func emit(ctx context.Context, out *common.Out, c tcase) {
 	if !ensureConnected(ctx) {
@@ -1012,7 +1035,9 @@ func emit(ctx context.Context, out *common.Out, c tcase) {
 		out.Line("%s", r)
 		return
 	}
-	out.Line("%s => %s", c.input(), r)
+	for _, l := range strings.Split(r, "\n") {
+		out.Line("%s => %s", c.input(), l)
+	}
 }
 
 func ensureConnected(ctx context.Context) bool {
